@@ -60,20 +60,28 @@ func (this *Allocator) Stop() {
 
 func (this *Allocator) watch(partition *partition) {
 	this.partitionsMu.Lock()
-	defer this.partitionsMu.Unlock()
-
-	if _, exists := this.partitions[partition.id]; !exists {
+	_, exists := this.partitions[partition.id]
+	if !exists {
 		this.partitions[partition.id] = partition
+	}
+	this.partitionsMu.Unlock()
+
+	// Notify the allocator loop without holding the lock it needs to make progress
+	if !exists {
 		this.updatesC <- &watchPartitionUpdate{partition}
 	}
 }
 
 func (this *Allocator) unwatch(id uuid.UUID) {
 	this.partitionsMu.Lock()
-	defer this.partitionsMu.Unlock()
-
-	if partition, exists := this.partitions[id]; exists {
+	partition, exists := this.partitions[id]
+	if exists {
 		delete(this.partitions, id)
+	}
+	this.partitionsMu.Unlock()
+
+	// Notify the allocator loop without holding the lock it needs to make progress
+	if exists {
 		this.updatesC <- &unwatchPartitionUpdate{partition}
 	}
 }
